@@ -256,6 +256,10 @@ func (p *fmter) printComment(comment Comment) {
 
 func (p *fmter) doDescription(desc Description) {
 	linesOut := reformatDescription(desc.Value, 80-p.indent*4)
+	if len(linesOut) == 0 {
+		// a description with no words is still a description line
+		linesOut = []string{""}
+	}
 	p.multiLineToken(desc.SourceNode, "| ", linesOut)
 }
 
